@@ -17,25 +17,25 @@ CLAIMS = {
  "C02": ("reader hand-off channels are buffered at every make site; waiter registered before the write; the wait prefers a delivered reply over the close notification; reader re-arms the read deadline; no exit between write and wait; single waiter slot cleared only by the reader; the frame reader reads only through io.ReadFull; the waiter is registered under the widened 16-bit wire id the reader looks up; every exchange-path function passes on and waits on its own context. Also: reply channels are consumed only by their exchange, which returns what it received; waiters are removed only by deferred calls. Not decided: timing.",
          TRUST + "Go channel semantics (a send on a channel with free buffer space never blocks).",
          "SSA value-provenance of channel make sites + dominance / must-pass-through on the CFG"),
- "C04": ("the cache key builder is injective in (AD, CD, DO, 16 type bits, 16 class bits, name): every input bit is the sole dependency of a header bit, the name is copied verbatim, the buffer is fresh and private; non-empty key only for QR=0/QUERY/one question; one key value for lookup and stores. Also: no access to key bytes through sub-slices; the empty key never reaches the backend; no slicing of the key; the dump loader stores under the dumped key. This is the whole property except the semantics of miekg/dns field accessors.",
+ "C04": ("the cache key builder is injective in (AD, CD, DO, 16 type bits, 16 class bits, name): every input bit is the sole dependency of a header bit, the name is copied verbatim, the buffer is fresh and private; non-empty key only for QR=0/QUERY/one question; one key value for lookup and stores. Also: no access to key bytes through sub-slices; the empty key never reaches the backend; no slicing of the key; the dump loader stores under the dumped key. The lazy refresh runs on a context copy taken before the live context moves on. This is the whole property except the semantics of miekg/dns field accessors.",
          TRUST + "miekg/dns Msg.IsEdns0 / OPT.Do as documented; Go string map-key equality.",
          "bit-level dependency abstract interpretation of the key builder (SSA) + guard and provenance rules"),
  "C09": ("lockset on counters, waiter table, flags and connection sets; admission test inside the critical section; exactly-once release and wait-group accounting on every path of both ReservedExchanger implementations; no double counting of in-flight queries; reserved exchangers consumed exactly once by callers; dial only when nothing admitted; dialing limit <= connection limit; a reservation is released only by defer or after its exchange returned; connections change hands only by rendezvous. Also: limit fields come from their options; waiter-table entries and QUIC streams are released on every exit; all ReservedExchanger implementations are known. Not decided: run-time maxima over interleavings.",
          TRUST + "sync.Mutex / sync.WaitGroup semantics.",
          "must-lockset dataflow + exhaustive CFG path enumeration (event counting, typestate of reserved exchangers)"),
- "C11": ("lockset on every shard-map access (R for reads, W for writes); bounded insert only via certified edges inside one critical section; per-shard maximum >= 1 for every configured size (interval analysis of the size clamp); expiry guards in Get and the sweep; the cache uses only the locked, bounded map API; the non-evicting testAndSet is only asked to set keys present under the lock. Also: the size clamp ran on the object the size is read from; one bounded constructor call; shard methods run on the map's own shards; Store always sets unless expired. Not decided: linearizability of histories.",
+ "C11": ("lockset on every shard-map access (R for reads, W for writes); bounded insert only via certified edges inside one critical section; per-shard maximum >= 1 for every configured size (interval analysis of the size clamp); expiry guards in Get and the sweep; the cache uses only the locked, bounded map API; the non-evicting testAndSet is only asked to set keys present under the lock. Also: the size clamp ran on the object the size is read from; one bounded constructor call; shard methods run on the map's own shards; Store always sets unless expired. No lock-order cycle (mutexes and sync.Once) across the cache stack. Not decided: linearizability of histories.",
          TRUST + "sync.RWMutex semantics.",
          "must-lockset dataflow + edge-certified reachability + path-sensitive interval analysis"),
- "C18": ("scheme->default-port table by resolved constants; provenance of every dialled/resolved address from parseDialAddr(trimmed URL host, dial_addr, default); SNI default; bracket trimmer strips exactly what it tested; helper schemes; parse errors propagate; the bootstrap resolver is this upstream's own (own allocation, host/port from the parameters, address joined with its own port). Also: helper bodies (16-bit decimal port parsing, JoinHostPort, SplitHostPort), default port passed on as given, URL/options never rewritten. Not decided: string semantics of net/url and net.SplitHostPort over all inputs.",
+ "C18": ("scheme->default-port table by resolved constants; provenance of every dialled/resolved address from parseDialAddr(trimmed URL host, dial_addr, default); SNI default; bracket trimmer strips exactly what it tested; helper schemes; parse errors propagate; the bootstrap resolver is this upstream's own (own allocation, host/port from the parameters, address joined with its own port). Also: helper bodies (16-bit decimal port parsing, JoinHostPort, SplitHostPort), default port passed on as given, URL/options never rewritten. Forward passes addr / dial_addr / bootstrap / bootstrap_version field by field into NewUpstream. Not decided: string semantics of net/url and net.SplitHostPort over all inputs.",
          TRUST + "net/url, net.SplitHostPort, net.JoinHostPort as documented.",
          "AST table check with type-resolved constants + SSA value-provenance + guard analysis"),
  "C19": ("writer/reader field agreement with per-field sources; item rebuilt from matching getters; block length within [0,limit] at the allocation (interval analysis); every read/decode error leads to an error return, only io.EOF on a block header tolerated; header verified first; expired entries skipped on both sides; only rcodes that pack without OPT are admitted; every decoded entry reaches the store. Also: the unpacked message is untouched before it is stored; writer flush bound coupled to the reader limit (D10); one gzip member; every live entry and the last partial block are written; small reader limit. Not decided: round-trip equality of arbitrary messages, robustness of gzip/protobuf/miekg to arbitrary bytes (trusted).",
          TRUST + "protobuf getters return their field; gzip/protobuf/dns.Msg.Unpack report malformed input as errors.",
          "writer/reader table agreement over SSA stores and getter calls + interval analysis + error-flow rule"),
- "C20": ("own answer queued before the sibling-waking close, 'done' only with an answer; gate select before the secondary's Exec; hold select before a standby answer; <=1 send per path and capacity >= workers; caller loop bound / nil skipping / ctx / failure last; workers on copies taken before go with the caller's deadline. Also: every worker that ran reports; distinct context copies; threshold in milliseconds; exactly the non-nil results are accepted; makeDdlCtx carries the caller's deadline. Not decided: timing relative to the threshold.",
+ "C20": ("own answer queued before the sibling-waking close, 'done' only with an answer; gate select before the secondary's Exec; hold select before a standby answer; <=1 send per path and capacity >= workers; caller loop bound / nil skipping / ctx / failure last; workers on copies taken before go with the caller's deadline. Also: every worker that ran reports; distinct context copies; threshold in milliseconds; exactly the non-nil results are accepted; makeDdlCtx carries the caller's deadline. A worker's deadline context is cancelled only by defer (the context handed on with the reply is live). Not decided: timing relative to the threshold.",
          TRUST + "Go channel FIFO and close semantics.",
          "channel/select structure analysis over SSA (dominance, case-body reachability, path counting)"),
- "C01": ("waiter-table insert only on the absent edge of a same-key lookup in one locked region; reader dispatch by the id at offset 0 of the very buffer handed over, unclaimed buffers released; exchangers never write the caller's query and restore the caller's id on every returned reply; wire id = registered id at the framing's id offset; reply channel made by its own registration; waiter removed on every exit; idle connections handed out once and re-idled only after their reply; module-wide pooled-buffer typestate. Also: every connection Write goes through writeQuery; the wire-id counter advances by one per id; the DoH request URL is call-private. Not decided: which reply a concrete interleaving delivers.",
+ "C01": ("waiter-table insert only on the absent edge of a same-key lookup in one locked region; reader dispatch by the id at offset 0 of the very buffer handed over, unclaimed buffers released; exchangers never write the caller's query and restore the caller's id on every returned reply; wire id = registered id at the framing's id offset; reply channel made by its own registration; waiter removed on every exit; idle connections handed out once and re-idled only after their reply; module-wide pooled-buffer typestate. Also: every connection Write goes through writeQuery; the wire-id counter advances by one per id; the DoH request URL is call-private. A reply without a waiter closes the connection before any pool write. Not decided: which reply a concrete interleaving delivers.",
          TRUST + "16-bit id wrap assumption of the property itself.",
          "SSA guard/dominance rules + value provenance + buffer typestate (reachability after release) + lockset"),
  "C05": ("admission table expanded over all branches (lifetimes per rcode, cache lifetime = message lifetime except lazy non-empty NOERROR, TC / non-positive refused, one clock reading); store sites; guarded TTL subtraction; hit path guards and stale TTL constant; refresh only inside singleflight, key forgotten only by the refresh function, after the refresh; expiry guards; OPT-skipping TTL loops. Also: SetTTL is exact; the hit path ages a Copy(); one singleflight group; GetMinimalTTL skips nothing; reloaded entries keep their age. Not decided: clock arithmetic at boundaries.",
@@ -44,7 +44,7 @@ CLAIMS = {
  "C06": ("errors returned unchanged; walkers/nodes immutable after construction; continuation = (index+1, same chain, same jump-back); accept/reject/return/goto/jump call-graph facts; negation and its parsing; short-circuit to the next rule; end-of-chain jump-back. Also: every matcher passes the negation decision; the rule index advances by exactly one; ExecNext returns only matcher/action/continuation results. Not decided: equivalence with a reference interpreter over all programs.",
          TRUST + "plugins honour the Executable contracts.",
          "who-writes index (immutability) + SSA structure rules on the interpreter loop and built-ins"),
- "C07": ("ctx case in every blocking select; close-notification / dial-finished wake-ups; I/O error => close on every path; close-once with error stored first; transport Close (flag, all conns, dials, entry checks, late dials); goroutine termination table (incl. unbuffered hand-offs that must be outlived by their receiver); bounded deadlines incl. the reader not overriding the waiting-reply deadline; dialled-connection typestate; wait-group accounting; lock order; dialFinished closed at most once (site table); read errors end the read helpers. Also: exact arming condition of the waiting-reply deadline and a flag that tracks remaining waiters (D11); the lazy wrapper closes what it holds; no context-less handshake/dial in pkg/upstream. Not decided: actual timing.",
+ "C07": ("ctx case in every blocking select; close-notification / dial-finished wake-ups; I/O error => close on every path; close-once with error stored first; transport Close (flag, all conns, dials, entry checks, late dials); goroutine termination table (incl. unbuffered hand-offs that must be outlived by their receiver); bounded deadlines incl. the reader not overriding the waiting-reply deadline; dialled-connection typestate; wait-group accounting; lock order; dialFinished closed at most once (site table); read errors end the read helpers. Also: exact arming condition of the waiting-reply deadline and a flag that tracks remaining waiters (D11); the lazy wrapper closes what it holds; no context-less handshake/dial in pkg/upstream. Every tls.Client in pkg/upstream is handshaken under a context before it is handed out; sync.Once is part of the lock order (D12). Not decided: actual timing.",
          TRUST + "net.Conn deadlines interrupt blocked I/O; sync.Once.",
          "select/channel structure analysis + must-pass-through on the CFG + path-enumerating typestate"),
  "C08": ("retry re-entered exactly under {failed, not new, counter below bound[, ctx live]} with no narrowing condition; <= 4 attempts; is-new flag coincides with the dial; dead connections removed when detected / on close; every read/write error closes the connection on every path (all connection kinds); pooled buffers are not re-sent or released twice across the retry (inter-procedural release). Also: the is-new flag is set unconditionally at the dial; failed attempts surface as non-nil errors promptly. Not decided: whether the retry succeeds.",
@@ -56,7 +56,7 @@ CLAIMS = {
  "C17": ("TCP exchange exactly under msgTruncated(UDP reply) with its results returned unchanged; non-truncated reply returned as is with no TCP call reachable; msgTruncated == bit 1 of byte 2; same dial address value; same query; received reply bytes are never written except the id restoration; the TCP transport's idle-set discipline (a connection re-enters the idle set only after its reply was read). Also: both exchanges under the caller's context; whole-origin identity of the dial address; datagram buffer >= 4095. Whole property up to the DNS header layout.",
          TRUST,
          "CFG guard/return-shape rules + expression shape of the TC test"),
- "C03": ("malformed queries rejected first with no reply; packed message = plugins' response or SetReply(query)+SERVFAIL/REFUSED; RA forced; OPT re-attached before UDP truncation, truncation iff UDP with a size proven in [512,65535], pack last; provenance of every SetResponse argument from the query it answers; query question/id only modified on a copy or under a deferred restore; redirect reply fix-up; cache key injective in the question; context copies are deep; after validation every return hands back the pack result; the packer returns a pool buffer of its own holding the message and no pooled buffer is used after release (module-wide). Also: FromUDP is set exactly by the datagram server; the deferred restore writes back the saved original; replies are built from the query of the context they are set on. Not decided: arbitrary plugin compositions, miekg Truncate/Pack semantics, one reply per request at socket level.",
+ "C03": ("malformed queries rejected first with no reply; packed message = plugins' response or SetReply(query)+SERVFAIL/REFUSED; RA forced; OPT re-attached before UDP truncation, truncation iff UDP with a size proven in [512,65535], pack last; provenance of every SetResponse argument from the query it answers; query question/id only modified on a copy or under a deferred restore; redirect reply fix-up; cache key injective in the question; context copies are deep; after validation every return hands back the pack result; the packer returns a pool buffer of its own holding the message and no pooled buffer is used after release (module-wide). Also: FromUDP is set exactly by the datagram server; the deferred restore writes back the saved original; replies are built from the query of the context they are set on. The restored message is the one that was rewritten; stored cache copies share no slice with the live reply. Not decided: arbitrary plugin compositions, miekg Truncate/Pack semantics, one reply per request at socket level.",
          TRUST + "dns.Msg.SetReply / Truncate as documented; upstreams echo the question.",
          "guard/dominance rules on the entry handler + inter-procedural value provenance (through channels, fields, calls) + interval analysis"),
  "C12": ("ONLY structural necessary conditions: same normalisation on rule and query side, regexps compiled as written, patterns passed on unchanged, shared label scanner with '.' separator, type dispatch table, lookup precedence, default rule types, deepest-value rule in the trie walk, text-loader line pipeline (recognised clean-up steps, parser runs for every non-empty line, errors reported), the label trie only grows (who-writes table), keyword/regexp lookups consult every rule (no pre-filter). NOT decided: the 'if and only if' over all rule sets and names (trie walk, scanner arithmetic, substring/regexp semantics) — input-quantified algorithmics that no static argument in reach settles.",
